@@ -10,6 +10,7 @@
   points are shown to be real differences by `example`s at the end.
 -/
 import Bexpr.Eval.Spec
+import Bexpr.Eval.RefCheck
 import Proofs.SpecLemmas
 import Props.C06
 
@@ -358,6 +359,37 @@ theorem hyps_of_size (cfg : Config) (unknown : Option Any) (hwf : Any.wf d = tru
     (hsz : rvSize d ≤ 2 ^ 63) : Hyps d cfg unknown :=
   ⟨hwf, hh, hu, fun p v xs hg hl => short_of_size cfg hh d hsz p v xs hg hl⟩
 
+
+/-! ## The decidable side conditions the driver evaluates (`Bexpr.Eval.RefCheck`) -/
+
+theorem iterableB_iff (v : Any) : RefCheck.iterableB v = true ↔ C06.Iterable v := by
+  cases v with
+  | none => simp [RefCheck.iterableB, C06.Iterable]
+  | some x => cases x <;> simp [RefCheck.iterableB, C06.Iterable]
+
+theorem wellBoundB_eq (e : Expr) : RefCheck.wellBoundB e = wellBound e := by
+  induction e with
+  | not e ih => simpa [RefCheck.wellBoundB, wellBound] using ih
+  | and l r ihl ihr => simp [RefCheck.wellBoundB, wellBound, ihl, ihr]
+  | or l r ihl ihr => simp [RefCheck.wellBoundB, wellBound, ihl, ihr]
+  | match_ sel op raw => rfl
+  | coll op sel b inner ih => simp [RefCheck.wellBoundB, wellBound, C06.oneAlias, ih]
+
+/-- C01, in the form the check uses to decide whether a disagreement between the real code and
+    the model is a failing input: when the Boolean `refOk` holds of the evaluator and the datum,
+    `Evaluate` is the reference answer. -/
+theorem refOk_sound (ev : Evaluator) (h : RefCheck.refOk ev d = true) :
+    ev.evaluate re d = RefCheck.refAnswer re ev d := by
+  simp only [RefCheck.refOk, Bool.and_eq_true, Bool.or_eq_true, beq_iff_eq, decide_eq_true_eq] at h
+  obtain ⟨⟨⟨⟨hwf, hh⟩, hu⟩, hwb⟩, hsz⟩ := h
+  refine evaluator_refines_spec re d ev (by rw [← wellBoundB_eq]; exact hwb) ?_
+  refine hyps_of_size d _ _ hwf hh ?_ ?_
+  · intro u hu' hit
+    rw [hu'] at hu
+    have := (iterableB_iff u).mpr hit
+    simp [this] at hu
+  · cases d <;> simpa [rvSize, RefCheck.sizeOf] using hsz
+
 /-! ## Non-vacuity, and the excluded points are real -/
 
 section Examples
@@ -453,6 +485,7 @@ end Bexpr.Props.C01
 #print axioms Bexpr.Props.C01.evaluator_refines_spec
 #print axioms Bexpr.Props.C01.impl_refines_spec_quantifier_free
 #print axioms Bexpr.Props.C01.hyps_of_size
+#print axioms Bexpr.Props.C01.refOk_sound
 #print axioms Bexpr.Props.C01.unknown_collection_differs
 #print axioms Bexpr.Props.C01.transforming_hook_differs
 #print axioms Bexpr.Props.C01.two_aliases_differ
